@@ -8,8 +8,8 @@ row("C01", True, "E-INPUT",
 
 row("C02", True, "E-INPUT",
     EI + "; oracle: syntax-tree text == input, tokens tile the input on char boundaries",
-    "Every string over the lexical alphabet up to a length bound, every token sequence up to a length bound, and every 1-token (thorough: 2-token) edit of 58 documents that together use every grammar production is parsed by the real parser; the concatenated token text of the tree must equal the input byte for byte, ranges must tile it, and every error index must be a char boundary inside it.",
-    "Trusted: rowan's to_string/text_range. Token limit off, recursion limit default. One open known finding (token after `[` in a type dropped) is predicted exactly by a classifier; any other loss is a violation.")
+    "Every string over the lexical alphabet up to a length bound, every token sequence up to a length bound, every string that uses a character which is white space for Unicode but not for GraphQL, every 1-token (thorough: 2-token) edit of 58 documents that together use every grammar production, and token sequences / a nesting family / edits of nested documents under recursion limits 0..=3 are parsed by the real parser; the concatenated token text of the tree must equal the input byte for byte, ranges must tile it, and every error index must be a char boundary inside it.",
+    "Trusted: rowan's to_string/text_range. The token limit is never set (the statement's precondition). One open known finding (token after `[` in a type dropped) is predicted exactly by a classifier; any other loss is a violation.")
 
 row("C03", True, "E-INPUT",
     "bounded exhaustive input enumeration vs reference lexer (model checking of the real lexer over all strings up to a length bound)",
@@ -18,23 +18,23 @@ row("C03", True, "E-INPUT",
 
 row("C04", True, "E-INPUT",
     EI + " x every limit value; oracle: reference item count and reference nesting depth",
-    "For every string over the lexical alphabet up to a length bound: every token limit 0..K+1 (K = items of the unlimited stream) — error iff limit < K, the tokens before the limit equal the unlimited prefix, nothing is reported after the limit error. For a family of nested documents (selection sets, list/object values, list types, mixed): every recursion limit 0..depth+2 through the parser and the three compiler entry points — error iff reference depth > limit, high-water mark == min(depth, limit+1).",
+    "For every string over the lexical alphabet up to a length bound: every token limit 0..K+1 (K = items of the unlimited stream) — error iff limit < K, the tokens before the limit equal the unlimited prefix, nothing is reported after the limit error. For a family of nested documents (selection sets, list/object values, list types, mixed): every recursion limit 0..depth+2 through the parser and the three compiler entry points — error iff reference depth > limit, high-water mark == min(depth, limit+1). History part (E-HIST): one compiler Parser value, every sequence of <= 3|4 calls over 28 (entry point, text) items x 2 recursion limits; after every call the reached figures must be those of that call.",
     "Trusted: the definition of a nesting level (DESIGN A.7) and refmodel::nest; K is cross-checked against the reference lexer on lexically valid inputs.")
 
 row("C05", True, "E-INPUT",
     EI + "; oracle: reference recogniser for the appendix-B document grammar",
     "Every token sequence over a 42-symbol token alphabet up to a length bound, every sequence within k single-token edits of grammatical base documents (together using every production) and of boundary documents one step outside the grammar, each also with an ignored token inserted at each gap, is parsed by the real parser. Acceptance (no errors) and the (kind, name) list of top-level definitions are compared with an independent recogniser.",
-    "Trusted: refmodel::recognise as a transcription of the October 2021 grammar (unit-tested on spec examples and both sides of each boundary). Seven open known findings are modelled by deviation switches in the recogniser; only inputs whose disagreement the switch reproduces exactly are attributed to them.")
+    "Trusted: refmodel::recognise as a transcription of the October 2021 grammar (unit-tested on spec examples and both sides of each boundary). Known findings are deviation switches of the recogniser (six fixed in /repo, one open: a root operation type without its type); only inputs whose disagreement the switch reproduces exactly are attributed to them.")
 
 row("C06", True, "E-INPUT",
     EI + "; oracle: reference StringValue / BlockStringValue semantics",
-    "Every quoted-string body and every block-string body over escape/indentation/line-terminator alphabets up to a length bound that the reference lexer accepts as one StringValue is decoded by the real code at four sites (CST String→String conversion, ast value, description, directive argument); the result must equal the spec's StringValue / BlockStringValue() result and must never panic.",
+    "Every quoted-string body and every block-string body over escape/indentation/line-terminator alphabets (and one of characters that are white space only for Unicode) up to a length bound that the reference lexer accepts as one StringValue is decoded by the real code at four sites (CST String→String conversion, ast value, description, directive argument); the result must equal the spec's StringValue / BlockStringValue() result and must never panic.",
     "Trusted: refmodel::strings (spec §2.9.4, nine BlockStringValue steps; unit-tested on the spec example). Surrogate escapes are lexical errors and not evaluated.")
 
 row("C07", True, "E-INPUT",
     EI + "; oracle: reference 'input is exactly one Type / one selection set'",
     "Every (core construct, prefix token sequence, suffix token sequence) over a token alphabet with the stated length shapes is given to Parser::parse_type / ast::Type::parse and Parser::parse_selection_set / FieldSet::parse. Whenever the reference says the input is not exactly one construct, the real entry point must report at least one error.",
-    "One-directional as the statement is; panics are C01's subject. FieldSet::parse runs against a fixture schema where every name resolves so only syntax can fail. One open known finding (argument without value) is modelled by a switch.")
+    "One-directional as the statement is; panics are C01's subject. FieldSet::parse runs against a fixture schema where every name resolves so only syntax can fail.")
 
 row("C08", True, "E-INPUT",
     EI + " x 18 serializer configurations; oracle: parse(serialize(d)) == d and equals the generated mini-AST",
@@ -43,7 +43,7 @@ row("C08", True, "E-INPUT",
 
 row("C09", True, "E-INPUT",
     EI + " x 10 string sites x 5 configurations; oracle: value identity through serialize→parse",
-    "Every string over an alphabet of quotes, backslash, controls, DEL, U+2028, newlines, spaces and letters up to a length bound is placed at 10 sites (string value, 8 description sites, deprecation reason) of programmatically built schemas/documents, serialized under 5 configurations and re-parsed; the recovered value must be identical.",
+    "Every string over an alphabet of quotes, backslash, controls, DEL, U+2028, form feed, NBSP, newlines, spaces and letters up to a length bound is placed at 10 sites (string value, 8 description sites, deprecation reason) of programmatically built schemas/documents, serialized under 5 configurations and re-parsed; the recovered value must be identical.",
     "Decoding on the way back is apollo's own (its spec agreement is C06). A boundary family covers the 70-character block-string threshold.")
 
 row("C10", True, "E-INPUT",
@@ -58,18 +58,18 @@ row("C11", True, "E-INPUT",
 
 row("C12", True, "E-HIST",
     "explicit-state breadth-first search over definition/extension histories replayed on fresh real SchemaBuilders, canonical-state dedup; oracle: serialize→parse identity including order",
-    "Every sequence of up to max_depth items of a 26-item menu of type-system definitions and extensions (all six kinds, schema definition/extension, directives) is built into a Schema by the real builder; the schema is serialized, re-parsed and must be equal including the order of fields, values, members, interfaces, directives and extensions; every ExtendedType component must report the origin that contributed it.",
-    "One open known finding (components of several extensions re-serialize in a different order) is predicted exactly by a re-ordering classifier; any other inequality is a violation.")
+    "Every sequence of up to max_depth items of a 26-item menu of type-system definitions and extensions (all six kinds, schema definition/extension, directives) is built into a Schema by the real builder; the schema is serialized, re-parsed and must be equal including the order of fields, values, members, interfaces, directives and extensions; Five themed focus menus (interface / object extensions carrying all component kinds, explicit schema roots next to default-named types, union / enum / input directives, descriptions at every site, redefined built-in directives) are explored one level deeper under the same oracle.",
+    "The extension-order defect this check found is fixed in /repo (5db661e); its predictive classifier is inert.")
 
 row("C13", True, "E-HIST",
     "explicit-state enumeration of histories x every split into sources x every relocation of a definition among its extensions, each replayed on a fresh real builder; differential oracle",
-    "Every sequence of up to max_depth menu items (schema part) and executable items is built (a) as one source, (b) under every contiguous split into several sources added in order, (c) with each definition relocated among its own extensions. Resulting schema / executable document and the multiset of diagnostic messages must agree.",
-    "Diagnostics compared by message (locations legitimately differ). Relocations never jump over another definition. adopt_orphan_extensions / ignore_builtin_redefinitions modes not explored.")
+    "Every sequence of up to max_depth menu items (schema part) and executable items is built (a) as one source, (b) under every contiguous split into several sources added in order, (c) with each definition relocated among its own extensions, (d) with each extension that precedes the definition of its type moved behind it, and (a)-(d) again under SchemaBuilder::adopt_orphan_extensions(). Resulting schema / executable document and the multiset of diagnostic messages must agree.",
+    "Diagnostics compared by message (locations legitimately differ). Relocations never jump over another definition. ignore_builtin_redefinitions mode not explored.")
 
 row("C14", True, "E-INPUT",
     EI + " (mutation operators x sites over base schemas, tiny-scope schemas); oracle: reference type-system validator",
     "Every schema obtained from 10+ base schemas by each of 45 mutation operators at each site (thorough: pairs of mutations) and every schema of a tiny scope is validated by Schema::parse_and_validate; the verdict (valid / invalid) must equal that of an independent transcription of the spec §3 rules, and every reference rule must fire somewhere in the space.",
-    "Trusted: refmodel::typesys (graphql-js is not installed). Three documented apollo choices are oracle parameters. One open known finding (duplicate input-object field in a const value) is modelled by a switch.")
+    "Trusted: refmodel::typesys (graphql-js is not installed). Three documented apollo choices are oracle parameters.")
 
 row("C15", True, "E-INPUT",
     EI + " (C14's schema space); oracle: direct invariants on every accepted schema",
@@ -78,7 +78,7 @@ row("C15", True, "E-INPUT",
 
 row("C16", True, "E-HIST",
     "explicit-state breadth-first search over validate / into_inner / mutate histories on real Schema and ExecutableDocument objects with canonical-state dedup; oracle: idempotence + reference built-in scalar set",
-    "From each base schema, every history of up to max_depth operations (validate, unwrap, add/remove a field that references a built-in scalar, clone) is executed on real objects; in every distinct state re-validation must leave the serialized schema, type order and diagnostics unchanged, and the set of built-in scalars present must equal the set referenced. 45 valid (schema, document) pairs are re-validated after unwrap with the same demand.",
+    "From each base schema, every history of up to max_depth operations (validate, unwrap, add a field / argument / input field / directive argument of each built-in scalar type, remove an added field, remove the base field) is executed on real objects; in every distinct state re-validation must leave the serialized schema, type order and diagnostics unchanged, and the set of built-in scalars present must equal the set referenced. 45 valid (schema, document) pairs are re-validated after unwrap with the same demand.",
     "The position at which a re-added scalar lands is C22's subject.")
 
 row("C17", True, "E-INPUT",
@@ -99,16 +99,16 @@ row("C19", True, "E-INPUT",
 row("C20", True, "E-INPUT",
     EI + " (C17's pair space); oracle: standalone validation must accept whatever validates against a schema, and may only report schema-independent problems",
     "For every pair of C17's space: (a) if the document validates against its schema, ast::Document::validate_standalone_executable must accept it; (b) each diagnostic of a failing standalone validation must map to a problem that is an error under every schema and that the document has.",
-    "One open known finding (built-in directives undefined without schema) is a switch.")
+    "The defect this check found (built-in directives undefined without a schema) is fixed in /repo (999115c).")
 
 row("C21", True, "E-INPUT",
     EI + " (parametric adversarial families around every internal limit, single-token edits), child processes; oracle: no panic, limit diagnostics present, diagnostics sorted",
-    "Eleven parametric families (nested selections, fragment chains and cycles, directive chains, input-object cycles, interface chains, deep values/types, wide documents, huge names…) at every size around each internal limit (32/100/128/500) plus every single-token edit of seed documents are run through parse → build → validate → serialize → introspect → execute pipelines under catch_unwind in watchdog-supervised children; no panic/abort/hang, a recursion-limit diagnostic when the limit is exceeded, DiagnosticList sorted by location, Display/Debug/JSON rendering total.",
+    "Eleven parametric families (nested selections, fragment chains and cycles, directive chains, input-object cycles, interface chains, deep values/types, wide documents, huge names…) at every size around each internal limit (32/100/128/500) plus every single-token edit of seed documents are run through parse → build → validate → serialize → introspect → execute pipelines under catch_unwind in watchdog-supervised children; no panic/abort/hang, a recursion-limit diagnostic when the limit is exceeded, DiagnosticList sorted by location (also for a schema built from two source files with interleaving diagnostics), Display/Debug/JSON rendering total.",
     "Limit diagnostics demanded only for acyclic chains longer than the code's constant for that family.")
 
 row("C22", True, "E-CHOICE",
     "exhaustive enumeration of hash-seed schedules (environment answers of the hash seam) with the real code run to completion on each, plus K fresh processes; oracle: byte-identical outputs",
-    "Every workload (schemas that prune/re-add built-in scalars, documents with many diagnostics, introspection, smith generation) is run under every schedule of a family of per-instance hash seeds installed through ahash's RandomSource seam, so that every hash collection of apollo-compiler iterates in many different orders; type-map order, SDL, introspection JSON, diagnostics (text and JSON) and smith output must be byte-identical to schedule 0. Fresh processes with natural seeds are compared by digest.",
+    "Every workload (schemas that prune/re-add built-in scalars, documents with many diagnostics, several diagnostics at one location, adopted orphan extensions, introspection, smith generation) is run under every schedule of a family of per-instance hash seeds installed through ahash's RandomSource seam, so that every hash collection of apollo-compiler iterates in many different orders; type-map order, SDL, introspection JSON, diagnostics (text and JSON) and smith output must be byte-identical to schedule 0. The whole schema space of C14 and the (schema, document) space of C17 are additional workloads, each case under 5|9 per-thread seed schedules. Fresh processes with natural seeds are compared by digest (workloads and both spaces).",
     "Seam self-test asserts the installed source is actually consulted and changes iteration order. apollo-smith's std HashMap is varied only by the cross-process part.")
 
 row("C23", True, "E-INPUT",
@@ -129,11 +129,11 @@ row("C25", True, "E-INPUT",
 row("C26", True, "E-INPUT",
     EI + " (operations x variable maps x resolver worlds with bounded deviations); oracle: reference executor (spec §6)",
     "Every generated valid operation × every coerced variable map × every resolver world with at most k non-default behaviours (resolver error, null, wrong shape, list item error/null, abstract type choice) is executed by the real execute_sync; data, error paths, null propagation, @skip/@include, fragment type conditions, field merging order, serial mutation and __typename must equal the reference executor's.",
-    "Trusted: refmodel::exec (51 calibration cases + spec examples). Messages/locations not compared. One open known finding is a switch.")
+    "Trusted: refmodel::exec (51 calibration cases + spec examples). Messages/locations not compared.")
 
 row("C27", True, "E-CHOICE",
     "stateless exhaustive enumeration of every poll-readiness / wake-timing schedule of the real async executor under a controlled single-task executor; oracle: sync response + call log",
-    "For every request within the bound, every assignment of {ready, pending + immediate wake, pending + deferred wake} to every poll of every resolver future and list-stream item (bounded pendings per future) drives the real execute_async to completion under a harness executor that polls only after a wake; the response must equal execute_sync's, every resolver is called at most once, a mutation root field starts only after the previous one completed, and a never-woken pending poll must be reported as a lost wake-up (no busy polling).",
+    "For every request within the bound, every assignment of {ready, pending + immediate wake, pending + deferred wake} to every poll of every resolver future and list-stream item (bounded pendings per future) drives the real execute_async to completion under a harness executor that polls only after a wake; the response must equal execute_sync's, every resolver is called at most once, a mutation root field starts only after the previous one completed, and a never-woken pending poll must be reported as a lost wake-up (no busy polling). Lists of 127..300 items at every list position are explored by deviation bound (all-ready and every single non-default answer).",
     "Executor model: one task, no spurious polls.")
 
 row("C28", True, "E-INPUT",
@@ -148,18 +148,18 @@ row("C29", True, "E-INPUT",
 
 row("C32", True, "E-INPUT",
     EI + " (all byte strings up to a length bound as the Unstructured entropy); oracle: generated document parses and validates; generation twice gives identical text",
-    "Every byte string of length <= 2 over all 256 bytes and up to a larger bound over 6 representative bytes is fed as entropy to apollo-smith's DocumentBuilder in each mode (type-system, executable against base schemas); the generated text must parse and validate with the real compiler and a second generation from the same bytes must be identical.",
-    "Base schemas stay inside what DocumentBuilder implements (no union/custom-scalar output fields; no self-referential input objects).")
+    "Every byte string of length <= 2 over all 256 bytes, up to a larger bound over 6 representative bytes, every unit of <= 2|3 bytes repeated to 64..4096 bytes, and every all-zero input of 64|128 bytes with at most two bytes changed is fed as entropy to apollo-smith's DocumentBuilder in each mode (type-system, executable against base schemas); the generated text must parse and validate with the real compiler and a second generation from the same bytes must be identical.",
+    "Base schemas stay inside what DocumentBuilder implements (no union/custom-scalar output fields; no self-referential input objects). arbitrary's IncorrectFormat counts as 'no document from this input'; documents beyond the parser's / validator's own recursion limits are not judged. Three fixed witness inputs from an independent random search form a regression family (two open findings, one fixed by 0b18ccc); defects that need long specific inputs are outside the enumerated families.")
 
 row("C33", True, "E-CHOICE",
     "stateless exhaustive enumeration of every RandomProvider answer sequence (complete tree, or all sequences with <= k deviations from the default answer) with the real ResponseBuilder run on each; oracle: shape checker + real execution",
     "For each (schema, operation) workload and builder configuration, every answer sequence of the RandomProvider seam (bool / index / length answers) is enumerated — the whole choice tree where small, otherwise every sequence with at most k non-default answers — and ResponseBuilder::build runs on each; the response must have exactly the operation's shape for the concrete types chosen (key sets, list nesting per declared type, null only where nullable, enum values from the enum, __typename consistent) and be accepted when served back through execute_sync.",
-    "One open known finding (nested list types generated with one list level) is predicted by a classifier.")
+    "The nested-list defect this check found is fixed in /repo (546a0f9).")
 
 row("C30", True, "E-HIST",
     "explicit-state breadth-first search over operation histories replayed on fresh real Name / Node objects, canonical-state dedup on a reference pool; oracle: reference counts, read-backs, sharing and allocator balance after every step",
     "Name machine: 3 name slots, 2 witness Arc<str>s, up to 2 held handles, 49 operations (new, new_static, from_arc_unchecked, try_from, clone, From<&Name>, drop, with_location x2, to_cloned_arc kept / dropped, From<Name> for Arc<str>, drop handle); breadth-first to depth 5|7 over canonical reference-pool states, every (state, enabled operation) replayed on fresh real objects. After every step: text, location, static/heap tag of every slot, Arc::strong_count of every backing string (= live heap names + live handles), sharing between slots, equality / ordering / hashing ignoring locations. Node machine: 3 Node<String> slots, 36 operations (new, new_parsed, from, clone, drop, make_mut + write, get_mut + write, same_location) to depth 6|9: value, location, ptr_eq == sharing class, get_mut().is_some() == uniquely owned, make_mut leaves clones untouched. At the end of every history everything is dropped: witness counts are 1 and the per-thread counting allocator is back at its baseline. Every representative name history of depth <= 3|4 is replayed under every assignment of its operations to two OS threads (values cross threads).",
-    "Interleavings inside Arc::clone / drop (std::sync::Arc, triomphe::Arc) are not intercepted: trusted base; the two-thread replays hand the pool over between operations. Memory errors are detected through counts, sharing and allocator balance, not by instrumenting loads.")
+    "The exploration runs in a worker process: a worker killed by a memory error is localised to a history (one child process per history) and reported as a violation. Interleavings inside Arc::clone / drop (std::sync::Arc, triomphe::Arc) are not intercepted: trusted base; the two-thread replays hand the pool over between operations. Memory errors are detected through counts, sharing and allocator balance, not by instrumenting loads.")
 row("C31", True, "E-CHOICE",
     "loom (DPOR) exhaustive exploration of every interleaving of the real FileId::new on 2-4 threads through the cfg-guarded atomic seam (hook H1), unbounded and preemption-bounded; plus bounded exhaustive enumeration of the id packing lattice",
     "Model A: the real FileId::new runs on 2-3 (thorough: up to 4) loom threads, 1-3 allocations each, with parser::NEXT backed by a loom atomic through hook H1; loom enumerates every interleaving (complete DPOR for the 2-thread and 3x1 models, preemption bound 2|3 otherwise), from the counter's initial value and from just below 2^63 (up to, never across, the wrap); in every execution all ids are pairwise distinct, unreserved and untagged. Model B: loom threads each parse + validate + introspect against a shared Arc<Valid<Schema>>; every interleaving must give the sequential results. Packing: every id with <= 3 bits set below bit 63 and every run of ones (41.7 k ids; thorough adds complements and 4-bit combinations) is allocated by the real parser and observed through heap-tagged and static-tagged Names (location, as_static_str, to_cloned_arc, clone, equality).",
